@@ -162,8 +162,12 @@ def run(ctx):
     ctx.assumptions = ["the CLI is started with `python -m tlexport.main` from the tree under test"]
     import m1_mainloop
     ctx.gen_tables.update(m1_mainloop.regen())      # reset statements of run() → lean/TLX/Gen/MainLoopConsts.lean
-    ctx.prove(["TLX.Props.C18"])
-    ctx.require_theorems([t for t in m1_mainloop.THEOREMS if t.startswith("TLX.Props.C18.")])
+    import export_thms
+    ctx.prove(["TLX.Props.C18"] + export_thms.MODULES)
+    ctx.require_theorems([t for t in m1_mainloop.THEOREMS if t.startswith("TLX.Props.C18.")] + [
+        "TLX.Props.Export.export_ignores_prior_state", "TLX.Props.Export.export_is_function"])
+    import file_corr
+    file_corr.correspond(ctx, ctx.n(25, 400))     # the model's exportFile (a function of the file bytes) vs the real run
     m1_mainloop.correspond(ctx)       # ties TLX.MainLoop to the real handle_packet / handle_quic_packet / run()
     explore(ctx)
     return ctx.finish(search=lambda c: explore(c, scale=2))
